@@ -941,54 +941,70 @@ Proof.
   - destruct (Z.ltb_spec z 0); split_ifs.
 Qed.
 
-Lemma number_bits_fin : forall b, is_nan_bits b = false -> to_integer_bits b <> NInf ->
-  (to_integer_bits b = PInf /\ fst (number_bits b) = true) \/
-  (exists z, to_integer_bits b = Fin z /\
+Lemma number_bits_cases : forall b,
+  let p := if is_nan_bits b then PInf else to_integer_bits b in
+  (p = PInf /\ fst (number_bits b) = true) \/
+  (p = NInf /\ number_bits b = (false, min64)) \/
+  (exists z, p = Fin z /\
              number_bits b = (false, if 2 ^ 63 <=? z then max64 else if z <=? - 2 ^ 63 then min64 else z)).
 Proof.
-  intros b NN NI. unfold is_nan_bits, to_integer_bits, number_bits in *.
-  destruct (decode b) as [|neg|neg m e]; [discriminate| |].
-  - destruct neg; [congruence|]. left. split; reflexivity.
-  - right. eexists. split; [reflexivity|].
+  intros b. unfold is_nan_bits, to_integer_bits, number_bits.
+  destruct (decode b) as [|neg|neg m e].
+  - left. split; reflexivity.
+  - destruct neg; [right; left; split; reflexivity | left; split; reflexivity].
+  - right. right. eexists. split; [reflexivity|].
     destruct (2 ^ 63 <=? _); [reflexivity|]. destruct (_ <=? - 2 ^ 63); reflexivity.
 Qed.
 
+(* every position argument, NaN and both infinities included (after ea386ab) *)
 Theorem lastIndexOf_refines_ascii : forall s t nargs a1 b, ascii s -> ascii t -> zlen s < 2 ^ 62 ->
   (2 <= nargs)%nat -> a1 <> AUndef -> to_number a1 = Some b ->
-  is_nan_bits b = false -> to_integer_bits b <> NInf ->
-  m_lastIndexOf s t nargs a1 = Some (VInt (lastIndexOf s t (to_integer_bits b))).
+  m_lastIndexOf s t nargs a1 =
+  Some (VInt (lastIndexOf s t (if is_nan_bits b then PInf else to_integer_bits b))).
 Proof.
-  intros s t nargs a1 b As At L N2 NU TN NN NI.
+  intros s t nargs a1 b As At L N2 NU TN.
   unfold m_lastIndexOf. cbv zeta. rewrite (enc8_ascii s As), (enc8_ascii t At).
   pose proof (zlen_nonneg _ s) as Hs. pose proof (zlen_nonneg _ t) as Ht.
   destruct (Nat.ltb_spec nargs 2); [lia|].
+  set (p := if is_nan_bits b then PInf else to_integer_bits b).
   assert (W : Some (VInt (lastIndexRune s t)) = Some (VInt (lastIndexOf s t PInf))).
   { now rewrite lastIndexRune_ascii, lastIndexOf_whole. }
   assert (Body : (if zlen s =? 0 then Some (VInt (lastIndexRune s t))
                   else match number a1 with
-                       | Some (isinf, n) =>
-                           if isinf then Some (VInt (lastIndexRune s t))
+                       | Some (whole_string, n) =>
+                           if whole_string then Some (VInt (lastIndexRune s t))
                            else Some (VInt (lastIndexRune
                                   (firstn (Z.to_nat (if zlen s <? (if zlen s <? (if n <? 0 then 0 else n) then zlen s else if n <? 0 then 0 else n) + zlen t
                                                      then zlen s
                                                      else (if zlen s <? (if n <? 0 then 0 else n) then zlen s else if n <? 0 then 0 else n) + zlen t)) s) t))
                        | None => None
-                       end) = Some (VInt (lastIndexOf s t (to_integer_bits b)))).
+                       end) = Some (VInt (lastIndexOf s t p))).
   { destruct (Z.eqb_spec (zlen s) 0) as [Z0|Z0].
     - rewrite W. do 2 f_equal. unfold lastIndexOf.
-      pose proof (clamp_range (to_integer_bits b) (zlen s) Hs).
+      pose proof (clamp_range p (zlen s) Hs).
       pose proof (clamp_range PInf (zlen s) Hs).
       rewrite !firstn_beyond by lia. reflexivity.
     - unfold number. rewrite TN. cbn [option_map].
-      destruct (number_bits_fin b NN NI) as [[P I]|[z [P I]]].
-      + destruct (number_bits b) as [isinf n]. cbn [fst] in I. subst isinf. rewrite P. exact W.
-      + rewrite I, P.
+      assert (Fin_case : forall z n, n = (if 2 ^ 63 <=? z then max64 else if z <=? - 2 ^ 63 then min64 else z) ->
+                Some (VInt (lastIndexRune
+                   (firstn (Z.to_nat (if zlen s <? (if zlen s <? (if n <? 0 then 0 else n) then zlen s else if n <? 0 then 0 else n) + zlen t
+                                      then zlen s
+                                      else (if zlen s <? (if n <? 0 then 0 else n) then zlen s else if n <? 0 then 0 else n) + zlen t)) s) t))
+                = Some (VInt (lastIndexOf s t (Fin z)))).
+      { intros z n ->.
         pose proof (lastIndexOf_clamp z (zlen s) ltac:(lia)) as C. cbv zeta in C. rewrite C.
         rewrite lastIndexRune_ascii by now apply ascii_firstn.
         unfold lastIndexOf, clamp. cbn [ext_max ext_min].
         set (st := Z.min (Z.max z 0) (zlen s)).
         destruct (Z.ltb_spec (zlen s) (st + zlen t)); [|reflexivity].
         rewrite (firstn_beyond s (st + zlen t)) by lia. rewrite (firstn_beyond s (zlen s)) by lia. reflexivity. }
+      destruct (number_bits_cases b) as [[P I]|[[P I]|[z [P I]]]]; fold p in P; rewrite P.
+      + destruct (number_bits b) as [w n]. cbn [fst] in I. subst w. exact W.
+      + rewrite I.
+        (* -Infinity is the position -2^63: the same clamp as for that integer *)
+        rewrite (Fin_case (- 2 ^ 63) min64) by reflexivity.
+        reflexivity.
+      + rewrite I. now apply Fin_case. }
   destruct a1; try congruence; exact Body.
 Qed.
 
